@@ -43,9 +43,9 @@ const (
 	// synctest, so the fake clock could never reach the timer while a second
 	// message for the same channel is waiting for that mutex. A zero interval
 	// is what graphdb.DefaultOptions() uses.
-	batchCommit = 0
-	trickleDelay  = 90 * time.Second // lnd default
-	startHeight   = 100
+	batchCommit  = 0
+	trickleDelay = 90 * time.Second // lnd default
+	startHeight  = 100
 )
 
 // sqlTemplate is an empty, fully migrated sqlite graph database (bytes of
@@ -70,9 +70,21 @@ type simPeer struct {
 	dropped  bool             // Disconnect was called on it
 	hasSync  bool
 	filterOn bool
+	// own-channels arm: the remote endpoint of a channel of the node itself
+	chanPeer bool
+	online   bool
+	node     *uNode
 }
 
 func (p *simPeer) send(msgs ...lnwire.Message) error {
+	if p.chanPeer {
+		p.w.mu.Lock()
+		on := p.online
+		p.w.mu.Unlock()
+		if !on {
+			return errors.New("peer is not connected")
+		}
+	}
 	for _, m := range msgs {
 		switch m.(type) {
 		case *lnwire.ChannelAnnouncement1, *lnwire.ChannelUpdate1, *lnwire.NodeAnnouncement1:
@@ -160,6 +172,88 @@ type World struct {
 	activity int
 	txs      int
 	toFail   int
+
+	// own-channels arm
+	ownChans  []*uChan
+	chanPeers []*simPeer                        // remote endpoints of the node's own channels
+	waiters   map[[33]byte][]chan<- lnpeer.Peer // NotifyWhenOnline requests not served yet
+	offline   map[[33]byte][]chan struct{}      // NotifyWhenOffline channels not closed yet
+}
+
+// chanPeerByKey returns the channel peer with that node key (nil if none).
+func (w *World) chanPeerByKey(pub [33]byte) *simPeer {
+	for _, p := range w.chanPeers {
+		if p.pub == pub {
+			return p
+		}
+	}
+	return nil
+}
+
+// notifyWhenOnline is the server's NotifyWhenOnline: the peer is handed over
+// at once if it is connected, otherwise when it connects.
+func (w *World) notifyWhenOnline(pub [33]byte, ch chan<- lnpeer.Peer) {
+	w.mu.Lock()
+	defer w.mu.Unlock()
+	w.activity++
+	if p := w.chanPeerByKey(pub); p != nil && p.online {
+		select {
+		case ch <- p:
+		default:
+		}
+		return
+	}
+	w.waiters[pub] = append(w.waiters[pub], ch)
+}
+
+// notifyWhenOffline is the server's NotifyWhenOffline: a channel that is
+// closed when the peer disconnects (already closed if it is not connected).
+func (w *World) notifyWhenOffline(pub [33]byte) <-chan struct{} {
+	w.mu.Lock()
+	defer w.mu.Unlock()
+	w.activity++
+	c := make(chan struct{})
+	if p := w.chanPeerByKey(pub); p == nil || !p.online {
+		close(c)
+		return c
+	}
+	w.offline[pub] = append(w.offline[pub], c)
+	return c
+}
+
+// setOnline connects or disconnects a channel peer.
+func (w *World) setOnline(p *simPeer, on bool) {
+	w.mu.Lock()
+	defer w.mu.Unlock()
+	w.activity++
+	p.online = on
+	if on {
+		for _, ch := range w.waiters[p.pub] {
+			select {
+			case ch <- p:
+			default:
+			}
+		}
+		delete(w.waiters, p.pub)
+		return
+	}
+	for _, c := range w.offline[p.pub] {
+		close(c)
+	}
+	delete(w.offline, p.pub)
+}
+
+// findChannel is the gossiper's FindChannel hook (the channel database): the
+// node's own channels with that peer.
+func (w *World) findChannel(node *btcec.PublicKey, id lnwire.ChannelID) (*chanstate.OpenChannel, error) {
+	var pub [33]byte
+	copy(pub[:], node.SerializeCompressed())
+	for _, c := range w.ownChans {
+		if c.n[1-c.selfIdx].pub == pub && lnwire.NewChanIDFromOutPoint(c.outpoint) == id {
+			return &chanstate.OpenChannel{}, nil
+		}
+	}
+	return nil, errors.New("no such channel")
 }
 
 // failWrites makes the next n write transactions of the graph database fail.
@@ -251,8 +345,9 @@ func pruneIntervalFor(aging bool) time.Duration {
 	return 200 * 365 * 24 * time.Hour
 }
 
-func NewWorld(r *simcore.Run, chain *SimChain, self *uNode, npeers int, syncPeers int, sqlBackend bool, banThreshold uint64) *World {
-	w := &World{r: r, chain: chain, self: self}
+func NewWorld(r *simcore.Run, chain *SimChain, self *uNode, npeers int, syncPeers int, sqlBackend bool, banThreshold uint64, ownChans []*uChan) *World {
+	w := &World{r: r, chain: chain, self: self, ownChans: ownChans,
+		waiters: map[[33]byte][]chan<- lnpeer.Peer{}, offline: map[[33]byte][]chan struct{}{}}
 	w.ctx, w.cancel = context.WithCancel(context.Background())
 
 	var err error
@@ -365,30 +460,30 @@ func NewWorld(r *simcore.Run, chain *SimChain, self *uNode, npeers int, syncPeer
 			}
 			return nil
 		},
-		NotifyWhenOnline:  func([33]byte, chan<- lnpeer.Peer) {},
-		NotifyWhenOffline: func([33]byte) <-chan struct{} { return make(chan struct{}) },
+		NotifyWhenOnline:  w.notifyWhenOnline,
+		NotifyWhenOffline: w.notifyWhenOffline,
 		FetchSelfAnnouncement: func() lnwire.NodeAnnouncement1 {
 			return *selfAnn
 		},
 		UpdateSelfAnnouncement: func() (lnwire.NodeAnnouncement1, error) {
 			return *selfAnn, nil
 		},
-		ProofMatureDelta:          discovery.DefaultProofMatureDelta,
-		TrickleDelay:              trickleDelay,
-		RetransmitTicker:          ticker.New(30 * time.Minute),
-		RebroadcastInterval:       24 * time.Hour,
-		WaitingProofStore:         wps,
-		MessageStore:              ms,
-		AnnSigner:                 &msgSigner{self.priv},
-		ScidCloser:                discovery.NewScidCloserMan(w.cg, noChannels{}),
-		NumActiveSyncers:          3,
-		RotateTicker:              ticker.New(discovery.DefaultSyncerRotationInterval),
-		HistoricalSyncTicker:      ticker.New(discovery.DefaultHistoricalSyncInterval),
-		MinimumBatchSize:          10,
-		SubBatchDelay:             100 * time.Millisecond,
-		MaxChannelUpdateBurst:     discovery.DefaultMaxChannelUpdateBurst,
-		ChannelUpdateInterval:     discovery.DefaultChannelUpdateInterval,
-		IsAlias:                   func(lnwire.ShortChannelID) bool { return false },
+		ProofMatureDelta:      discovery.DefaultProofMatureDelta,
+		TrickleDelay:          trickleDelay,
+		RetransmitTicker:      ticker.New(30 * time.Minute),
+		RebroadcastInterval:   24 * time.Hour,
+		WaitingProofStore:     wps,
+		MessageStore:          ms,
+		AnnSigner:             &msgSigner{self.priv},
+		ScidCloser:            discovery.NewScidCloserMan(w.cg, noChannels{}),
+		NumActiveSyncers:      3,
+		RotateTicker:          ticker.New(discovery.DefaultSyncerRotationInterval),
+		HistoricalSyncTicker:  ticker.New(discovery.DefaultHistoricalSyncInterval),
+		MinimumBatchSize:      10,
+		SubBatchDelay:         100 * time.Millisecond,
+		MaxChannelUpdateBurst: discovery.DefaultMaxChannelUpdateBurst,
+		ChannelUpdateInterval: discovery.DefaultChannelUpdateInterval,
+		IsAlias:               func(lnwire.ShortChannelID) bool { return false },
 		SignAliasUpdate: func(*lnwire.ChannelUpdate1) (*ecdsa.Signature, error) {
 			return nil, errors.New("no alias")
 		},
@@ -398,9 +493,7 @@ func NewWorld(r *simcore.Run, chain *SimChain, self *uNode, npeers int, syncPeer
 		GetAlias: func(lnwire.ChannelID) (lnwire.ShortChannelID, error) {
 			return lnwire.ShortChannelID{}, errors.New("no alias")
 		},
-		FindChannel: func(*btcec.PublicKey, lnwire.ChannelID) (*chanstate.OpenChannel, error) {
-			return nil, errors.New("no such channel")
-		},
+		FindChannel:          w.findChannel,
 		IsStillZombieChannel: w.builder.IsZombieChannel,
 		AssumeChannelValid:   false,
 		BanThreshold:         banThreshold,
@@ -413,6 +506,17 @@ func NewWorld(r *simcore.Run, chain *SimChain, self *uNode, npeers int, syncPeer
 		p := &simPeer{w: w, name: fmt.Sprintf("P%d", i), priv: priv, quit: make(chan struct{}), hasSync: i < syncPeers}
 		copy(p.pub[:], priv.PubKey().SerializeCompressed())
 		w.peers = append(w.peers, p)
+	}
+	// The remote endpoint of each own channel is a peer of its own (no
+	// gossip syncer), connected at the start.
+	for _, c := range ownChans {
+		rn := c.n[1-c.selfIdx]
+		if w.chanPeerByKey(rn.pub) != nil {
+			continue
+		}
+		p := &simPeer{w: w, name: fmt.Sprintf("R%d", rn.idx), priv: rn.priv, pub: rn.pub, quit: make(chan struct{}),
+			chanPeer: true, online: true, node: rn}
+		w.chanPeers = append(w.chanPeers, p)
 	}
 	w.settle()
 
@@ -488,10 +592,31 @@ func (w *World) Deliver(p *simPeer, msg lnwire.Message) *delivery {
 	return d
 }
 
+// DeliverLocal hands msg to the gossiper the way a local sub-system (the
+// funding manager) does.
+func (w *World) DeliverLocal(msg lnwire.Message, opts ...discovery.OptionalMsgField) *delivery {
+	d := &delivery{}
+	go func() {
+		fut := w.gsp.ProcessLocalAnnouncement(msg, opts...)
+		err := discovery.AwaitGossipResult(w.ctx, fut)
+		if w.ctx.Err() != nil {
+			return
+		}
+		d.mu.Lock()
+		d.done, d.err = true, err
+		d.mu.Unlock()
+		w.bump()
+	}()
+	return d
+}
+
 // Stop shuts everything down so that the bubble can end.
 func (w *World) Stop() {
 	w.cancel()
 	for _, p := range w.peers {
+		close(p.quit)
+	}
+	for _, p := range w.chanPeers {
 		close(p.quit)
 	}
 	if w.gsp != nil {
